@@ -4,6 +4,7 @@
 //! constructors, runs `State::run` from /repo's working tree under `catch_unwind`, and prints one
 //! canonical S-expression per program describing everything observable: errors, global tables,
 //! global stack and, for every function, the complete block tree.
+mod exttag;
 mod extuse;
 mod mirror;
 mod sx;
@@ -1144,6 +1145,11 @@ fn main() {
     if args.len() == 2 && args[1] == "extuse" {
         std::panic::set_hook(Box::new(|_| {}));
         println!("{}", extuse::run());
+        return;
+    }
+    if args.len() == 2 && args[1] == "exttag" {
+        std::panic::set_hook(Box::new(|_| {}));
+        println!("{}", exttag::run());
         return;
     }
     if args.len() != 4 {
